@@ -32,7 +32,7 @@ Walk(r, k, s, rt, pend) ==
 Verdict(r) == Walk(r, 1, 1, TRUE, "auto")
 
 TInit == /\ i \in 1..Len(Trace)
-         /\ doc = <<>> /\ H = 0 /\ Hfirst = 0 /\ resume = 1 /\ right = TRUE /\ pages = <<>> /\ placed = <<>>
+         /\ doc = <<>> /\ H = 0 /\ Hfirst = 0 /\ nth = [a |-> 0, b |-> 0] /\ resume = 1 /\ right = TRUE /\ pages = <<>> /\ placed = <<>>
          /\ pending = "auto" /\ phase = "trace"
 TNext == UNCHANGED <<vars, i>>
 \* always TRUE; prints the index and the reason of every rejected record
